@@ -25,7 +25,9 @@ LAZY_TOOLS = ITER_TOOLS + ["all", "any", "anext"]  # C05 scope (anext: one pull 
 ADAPTERS = ["any_iter", "await_each", "apply", "sync"]  # C19
 
 INVARIANTS = ["NoUseAfterFault", "NoPullAfterStop", "DeclZip", "DeclZipStrict", "DeclChain",
-              "DeclISlice", "DeclMerge", "DeclSorted", "DeclMinMax", "DeclPairwise", "DeclBatched"]
+              "DeclISlice", "DeclMerge", "DeclSorted", "DeclMinMax", "DeclPairwise", "DeclBatched",
+              "DeclFilter", "DeclMap", "DeclStarMap", "DeclEnumerate", "DeclTakeDrop", "DeclCompress", "DeclAccumulate",
+              "DeclCycle", "DeclZipLongest"]
 
 TIERS = {
     "quick": {"MaxLen": 3, "MaxSrc": 2},
